@@ -31,15 +31,14 @@ func customRoutes(cfg *config.Custom, ch chan string) {
 		Timeout:   cfg.Timeout,
 	}
 
-	if cfg.QueryParams != "" {
-		URL = fmt.Sprintf("%s://%s/%s?%s", cfg.Scheme, cfg.Host, cfg.Path, cfg.QueryParams)
-	} else {
-		URL = fmt.Sprintf("%s://%s/%s", cfg.Scheme, cfg.Host, cfg.Path)
-	}
+	URL = cfg.URL()
 
 	req, err := http.NewRequest("GET", URL, nil)
 	if err != nil {
-		log.Printf("[ERROR] Can not generate new HTTP request")
+		// config.Load rejects such a URL. Never use the nil request.
+		log.Printf("[ERROR] Can not generate new HTTP request. %s", err)
+		ch <- fmt.Sprintf("Error generating HTTP request for custom be - %s", err)
+		return
 	}
 	req.Close = true
 
